@@ -498,3 +498,112 @@ def vary(rng: random.Random, cfg: dict) -> dict:
         if w["kind"] == "TimeLimit":
             w["n"] = rng.randint(1, 5)
     return c
+
+
+# ------------------------------------------------------------------------------------------------
+# tabular policies (users of the public policy interfaces)
+# ------------------------------------------------------------------------------------------------
+from lerax.policy import AbstractActorCriticPolicy, AbstractPolicyState  # noqa: E402
+
+P_TAB = 7           # policy tables are indexed by observation % P_TAB
+NO_LOGP = -25.0     # log-prob reported for an action that is not one of the candidates (= -100 quarters)
+
+
+class TPState(AbstractPolicyState):
+    n: jax.Array    # calls since reset
+
+
+def _pidx(okind: str, obs):
+    if okind == "disc":
+        o = jnp.asarray(obs).astype(int)
+    else:
+        o = jnp.round(jnp.asarray(obs, dtype=float).reshape(-1)[0] * 4.0).astype(int)
+    return jnp.mod(o, P_TAB)
+
+
+class TableACPolicy(AbstractActorCriticPolicy):
+    """Actor-critic policy whose value / candidate actions / log-probs / entropy are table look-ups."""
+    name: ClassVar[str] = "TableACPolicy"
+    action_space: Discrete | Box
+    observation_space: Discrete | Box
+    V: jax.Array          # (P,)
+    Raw: jax.Array        # (P, K)  int (disc) / float (box)
+    LogP: jax.Array       # (P, K)
+    Ent: jax.Array        # (P,)
+    akind: str = eqx.field(static=True)
+    okind: str = eqx.field(static=True)
+
+    def __init__(self, env, cfg: dict):
+        asp, osp = outer_spaces(cfg)
+        self.akind, self.okind = asp["kind"], osp["kind"]
+        self.action_space, self.observation_space = env.action_space, env.observation_space
+        self.V = jnp.asarray(cfg["V"], dtype=jnp.float32)
+        if self.akind == "disc":
+            self.Raw = jnp.asarray(cfg["Raw"], dtype=jnp.int32)
+        else:
+            self.Raw = jnp.asarray(cfg["Raw"], dtype=jnp.float32) / 4.0
+        self.LogP = jnp.asarray(cfg["LogP"], dtype=jnp.float32) / 4.0
+        self.Ent = jnp.asarray(cfg.get("Ent", [0] * P_TAB), dtype=jnp.float32) / 4.0
+
+    def reset(self, *, key):
+        return TPState(jnp.asarray(0, dtype=jnp.int32))
+
+    def _choose(self, p, key, action_mask):
+        cand = self.Raw[p]
+        K = cand.shape[0]
+        if action_mask is not None and self.akind == "disc":
+            m = jnp.asarray(action_mask)
+            ok = m[jnp.clip(cand, 0, m.shape[0] - 1)] & (cand >= 0) & (cand < m.shape[0])
+        else:
+            ok = jnp.ones((K,), dtype=bool)
+            m = None
+        any_ok = ok.any()
+        w = jnp.where(any_ok, ok, jnp.ones_like(ok)).astype(float)
+        if key is None:
+            k = jnp.argmax(w)
+        else:
+            k = jr.choice(key, K, p=w / w.sum())
+        a, lp = cand[k], self.LogP[p, k]
+        if m is not None:
+            a = jnp.where(any_ok, a, jnp.argmax(m).astype(cand.dtype))
+            lp = jnp.where(any_ok, lp, NO_LOGP)
+        return a, lp
+
+    def __call__(self, state, observation, *, key=None, action_mask=None):
+        a, _ = self._choose(_pidx(self.okind, observation), key, action_mask)
+        return TPState(state.n + 1), a
+
+    def action_and_value(self, state, observation, *, key, action_mask=None):
+        p = _pidx(self.okind, observation)
+        a, lp = self._choose(p, key, action_mask)
+        return TPState(state.n + 1), a, self.V[p], lp
+
+    def evaluate_action(self, state, observation, action, *, action_mask=None):
+        p = _pidx(self.okind, observation)
+        match = self.Raw[p] == jnp.asarray(action).astype(self.Raw.dtype)
+        lp = jnp.where(match.any(), self.LogP[p, jnp.argmax(match)], NO_LOGP)
+        return state, self.V[p], lp, self.Ent[p]
+
+    def value(self, state, observation):
+        return state, self.V[_pidx(self.okind, observation)]
+
+
+def gen_ac_policy(rng: random.Random, cfg: dict, K: int = 3) -> dict:
+    """Adds random tabular actor-critic tables (P, K, V, Raw, LogP, Ent) to a copy of cfg."""
+    c = copy.deepcopy(cfg)
+    asp, _ = outer_spaces(cfg)
+    if asp["kind"] == "disc":
+        pool = list(range(cfg["nA"]))
+        K = min(K, 2)
+    else:
+        pool = candidate_actions(cfg, oob=True)
+        if asp["lo"] > -INF:
+            pool = sorted(set(pool) | {asp["lo"] - 4, asp["hi"] + 4, asp["hi"] + 2})
+        while len(pool) < K:
+            pool.append(pool[-1] + 4)
+    c["P"], c["K"] = P_TAB, K
+    c["V"] = [rng.randint(-3, 6) for _ in range(P_TAB)]
+    c["Raw"] = [rng.sample(pool, K) for _ in range(P_TAB)]
+    c["LogP"] = [rng.sample(range(-12, 0), K) for _ in range(P_TAB)]
+    c["Ent"] = [rng.randint(0, 6) for _ in range(P_TAB)]
+    return c
